@@ -36,12 +36,14 @@ def _doc():
                                   "mpos": st.integers(0, 8)})
 
 
-def strategy(tier):
+def strategy(tier, repeat=None):
     p = G.Profile(doc=_doc(), max_items=6 if tier == "quick" else 10, depth=3 if tier == "quick" else 4,
                   kinds={"func", "parseargs", "block", "generic", "set", "class", "member", "test", "section"},
                   dangling=False, groups=False, impl_doc=True, nest_all=True, dups=True)
+    if repeat is not None:
+        p.p_doc_mostly = True
     return st.fixed_dictionaries({
-        "module": G.module(p), "layout": G.layout_choices(24),
+        "module": G.module(p, repeat), "layout": G.layout_choices(24),
         "settings": st.fixed_dictionaries({
             "trigger": st.sampled_from(TRIGGERS),
             "strip": st.fixed_dictionaries({"function": st.sampled_from(PATTERNS), "macro": st.sampled_from(PATTERNS),
@@ -67,6 +69,12 @@ def prepare(case):
     if mod.get("moddoc"):
         fix(mod["moddoc"])
     return mod
+
+
+def extra(ctx):
+    """A few modules of hundreds of items: the drawn item list is tiled 25..45 times, every copy with names of its own."""
+    from .common import large_campaign
+    large_campaign(ctx, strategy("quick", repeat=st.integers(25, 45)), evaluate, 4 if ctx.tier == "quick" else 32)
 
 
 def evaluate(case):
